@@ -311,6 +311,10 @@ structure MapEntry where
   path : List Char
 deriving DecidableEq, Repr
 
+/-- `fmt.Errorf("trying to read %s '%s' cross namespaces '%s' and '%s', but cross-namespace reading is disabled", …)`:
+the error of a refused cross-namespace read (only that it is an error, and which one, matters) -/
+def errorfCross (_format _kind _resourceName _ns _defaultNamespace : List Char) : Option String := some "cross-namespace"
+
 /-! ## Go maps used as sets (`map[K]struct{}`), bit masks -/
 
 def setEmpty : List Int := []
